@@ -47,6 +47,11 @@ pub enum NameSpec {
     OtherDir(B),
     /// an unrelated name
     Other(B),
+    /// the real file name without its first k bytes (a trailing *text* of the path that is not a
+    /// trailing sub-path)
+    CutFront(u8),
+    /// the last k components of the real path with extra text glued in front
+    Glued(u8, B),
 }
 
 #[derive(Clone, Debug, Serialize, Deserialize)]
@@ -140,6 +145,8 @@ fn entry_spec() -> BoxedStrategy<EntrySpec> {
         6 => (1u8..=3).prop_map(NameSpec::Tail),
         2 => prop::sample::select(vec![&b"x"[..], b"other", b"d2"]).prop_map(|d| NameSpec::OtherDir(B(d.to_vec()))),
         1 => prop::sample::select(vec![&b"unrelated.tgz"[..], b"patch-zz", b"a/b/c"]).prop_map(|d| NameSpec::Other(B(d.to_vec()))),
+        1 => (1u8..4).prop_map(NameSpec::CutFront),
+        1 => (1u8..=2, prop::sample::select(vec![&b"lib"[..], b"x", b"-", b"."])).prop_map(|(k, g)| NameSpec::Glued(k, B(g.to_vec()))),
     ];
     let basis = prop_oneof![
         6 => Just(Basis::Same),
@@ -297,6 +304,14 @@ pub fn check(c: &Case, obs: &mut Obs) -> Result<(), String> {
                 [d.0.clone(), b"/".to_vec(), fname.clone()].concat()
             }
             NameSpec::Other(n) => n.0.clone(),
+            NameSpec::CutFront(k) => fname[(*k as usize).min(fname.len().saturating_sub(1))..].to_vec(),
+            NameSpec::Glued(k, g) => {
+                let k = (*k as usize).clamp(1, c.comps.len());
+                if kind == Kind::Patchfile && k > 1 {
+                    continue;
+                }
+                [g.0.clone(), c.comps[c.comps.len() - k..].iter().map(|b| b.0.clone()).collect::<Vec<_>>().join(&b"/"[..])].concat()
+            }
         };
         if name.is_empty() || name.iter().any(|b| md::is_ws(*b)) || !md::unambiguous(&name) || recs.iter().any(|r| r.name == name) {
             continue;
